@@ -193,7 +193,8 @@ func (ex *Exec) frameObligations(fr *Frame, out *State, entry *State, mods []Mod
 	}
 	sort.Strings(keys)
 	for _, k := range keys {
-		if whole[k] {
+		if whole[k] || strings.HasPrefix(k, "VS:") || strings.HasPrefix(k, "VD:") {
+			// VS: / VD: are specification state of map range loops (visited keys, key set at the start), not program state
 			continue
 		}
 		srt := keySortReg[k]
@@ -667,7 +668,7 @@ func (ex *Exec) frameObligationsLoop(fr *Frame, out *State, head *State, pre *St
 	}
 	sort.Strings(keys)
 	for _, k := range keys {
-		if whole[k] {
+		if whole[k] || strings.HasPrefix(k, "VS:") || strings.HasPrefix(k, "VD:") {
 			continue
 		}
 		srt := keySortReg[k]
